@@ -93,7 +93,7 @@ func scratchBase() string {
 func buildAll(repo string, wantRace bool) (*Build, error) {
 	b, err := buildWith(repo, wantRace, true)
 	rewrites := func(d *instrument.Descriptor) bool {
-		return d != nil && (d.LockRewrites > 0 || d.OnceWraps > 0 || d.WaitHints > 0)
+		return d != nil && (d.LockRewrites > 0 || d.OnceWraps > 0 || d.WaitHints > 0 || d.PoolSites > 0 || d.ClockReads > 0)
 	}
 	if err == nil && b.Desc.GoStmts > 0 && rewrites(b.Desc) {
 		// the tree starts goroutines of its own: they would reach the rewritten Lock loops, which only the
